@@ -5,8 +5,8 @@
 
    Conventions.  [types_table] = one row per `new_sample_type!` invocation (coq/gen/TypesTable.v).
    A value of a sample type is the Z value of its Rep field; [in_range r v] = MIN <= v <= MAX.
-   Build configuration = [dev] (debug-assertions and overflow-checks on) or [release] (both off);
-   the theorem c15_never_outside holds for all four combinations of the two flags.
+   Build configuration [c : cfg] = the two flags debug_assertions and overflow_checks; every theorem
+   is stated for all four combinations ([dev] = both on, [release] = both off).
    Negation: the property speaks of the signed types; the theorems are stated for the rows that
    HAVE a Neg impl (has_neg): today I11, I24, I48 and also the unsigned U11, but not the signed
    I20 (see Sample/TypesNotes.v). *)
@@ -68,33 +68,46 @@ Theorem c15_order : forall a b : Z,
 Proof. exact order_spec. Qed.
 Print Assumptions c15_order.
 
-(* dev profile: + - * return the exact result if it is in range and panic otherwise (with the
-   constructor's `expect` when the exact result fits the Rep, with rustc's overflow check when not). *)
-Theorem c15_arith_debug : forall r, In r types_table -> forall o a b, in_range r a -> in_range r b ->
-  (in_range r (exact o a b) -> arith dev r o a b = Ok (exact o a b)) /\
-  (~ in_range r (exact o a b) ->
-     arith dev r o a b = Panic (if in_ity (rep r) (exact o a b) then PExpect else POverflow)).
-Proof. exact tbl_arith_debug. Qed.
+(* With debug assertions — overflow checks on (dev) or off — + - * return the exact result if it
+   is in range and otherwise panic with the `expect` of the checked constructor.  (rustc's own
+   overflow check can never fire: + and - of in-range operands fit the Rep because
+   bits + 2 <= rep_bits, and Mul uses checked_mul.) *)
+Theorem c15_arith_debug : forall r, In r types_table -> forall c, debug_assertions c = true ->
+  forall o a b, in_range r a -> in_range r b ->
+  (in_range r (exact o a b) -> arith c r o a b = Ok (exact o a b)) /\
+  (~ in_range r (exact o a b) -> arith c r o a b = Panic PExpect).
+Proof. exact tbl_arith_debug_any. Qed.
 Print Assumptions c15_arith_debug.
 
-(* release profile: + - * never panic and return a value in range congruent to the exact result
-   modulo 2^bits (that value is unique: c15_wrapped_unique). *)
-Theorem c15_arith_release : forall r, In r types_table -> forall o a b, in_range r a -> in_range r b ->
-  exists w, arith release r o a b = Ok w /\ in_range r w /\ (w - exact o a b) mod 2 ^ nbits r = 0.
-Proof. exact tbl_arith_release. Qed.
+(* Without debug assertions — overflow checks off (release) or on — + - * never panic and return
+   a value in range congruent to the exact result modulo 2^bits (unique: c15_wrapped_unique). *)
+Theorem c15_arith_release : forall r, In r types_table -> forall c, debug_assertions c = false ->
+  forall o a b, in_range r a -> in_range r b ->
+  exists w, arith c r o a b = Ok w /\ in_range r w /\ (w - exact o a b) mod 2 ^ nbits r = 0.
+Proof. exact tbl_arith_nodebug_any. Qed.
 Print Assumptions c15_arith_release.
 
-(* negation, for every type that has a Neg impl *)
-Theorem c15_neg_debug : forall r, In r types_table -> has_neg r = true -> forall a, in_range r a ->
-  (in_range r (- a) -> neg dev r a = Ok (- a)) /\
-  (~ in_range r (- a) -> neg dev r a = Panic (if in_ity (rep r) (- a) then PExpect else POverflow)).
-Proof. exact tbl_neg_debug. Qed.
+(* negation, for every type that has a Neg impl, same two clauses (`-self.0` cannot overflow the Rep) *)
+Theorem c15_neg_debug : forall r, In r types_table -> has_neg r = true ->
+  forall c, debug_assertions c = true -> forall a, in_range r a ->
+  (in_range r (- a) -> neg c r a = Ok (- a)) /\
+  (~ in_range r (- a) -> neg c r a = Panic PExpect).
+Proof. exact tbl_neg_debug_any. Qed.
 Print Assumptions c15_neg_debug.
 
-Theorem c15_neg_release : forall r, In r types_table -> has_neg r = true -> forall a, in_range r a ->
-  exists w, neg release r a = Ok w /\ in_range r w /\ (w - - a) mod 2 ^ nbits r = 0.
-Proof. exact tbl_neg_release. Qed.
+Theorem c15_neg_release : forall r, In r types_table -> has_neg r = true ->
+  forall c, debug_assertions c = false -> forall a, in_range r a ->
+  exists w, neg c r a = Ok w /\ in_range r w /\ (w - - a) mod 2 ^ nbits r = 0.
+Proof. exact tbl_neg_nodebug_any. Qed.
 Print Assumptions c15_neg_release.
+
+(* The overflow-checks setting does not matter on in-range operands (this replaces the two
+   `c15_mixed_profile_*_refuted` witnesses of the tree before /repo 45c5fdf, defect F8). *)
+Theorem c15_overflow_checks_irrelevant : forall r, In r types_table ->
+  forall c c', debug_assertions c = debug_assertions c' -> forall a b, in_range r a -> in_range r b ->
+  (forall o, arith c r o a b = arith c' r o a b) /\ neg c r a = neg c' r a.
+Proof. exact tbl_overflow_checks_irrelevant. Qed.
+Print Assumptions c15_overflow_checks_irrelevant.
 
 (* In no configuration (any combination of debug-assertions and overflow-checks) does an operation
    on in-range operands return a value outside [MIN, MAX]. *)
@@ -111,28 +124,12 @@ Print Assumptions c15_wrapped_unique.
 
 (* The arithmetic theorems do not depend on the particular eight rows: they hold for ANY width n
    and Rep with n + 2 <= rep_bits (a ninth type added with the same macro is covered as soon as
-   the regenerated table passes c15_table). *)
-Theorem c15_any_wellformed_row : forall r, row_ok r -> forall o a b, in_range r a -> in_range r b ->
-  (in_range r (exact o a b) -> arith dev r o a b = Ok (exact o a b)) /\
-  (~ in_range r (exact o a b) -> exists k, arith dev r o a b = Panic k) /\
-  (exists w, arith release r o a b = Ok w /\ in_range r w /\ (w - exact o a b) mod 2 ^ nbits r = 0).
+   the regenerated table passes c15_table), in all four configurations. *)
+Theorem c15_any_wellformed_row : forall r, row_ok r -> forall c o a b, in_range r a -> in_range r b ->
+  (debug_assertions c = true ->
+     (in_range r (exact o a b) -> arith c r o a b = Ok (exact o a b)) /\
+     (~ in_range r (exact o a b) -> arith c r o a b = Panic PExpect)) /\
+  (debug_assertions c = false ->
+     exists w, arith c r o a b = Ok w /\ in_range r w /\ (w - exact o a b) mod 2 ^ nbits r = 0).
 Proof. exact tbl_any_wellformed_row. Qed.
 Print Assumptions c15_any_wellformed_row.
-
-(* Outside the two profiles the clauses "panic on overflow with debug assertions" and "wrapped
-   result without them" are FALSE of the code (witnesses, not defects of the property as stated,
-   whose quantifier is the debug and the release configuration):
-   - debug-assertions on, overflow-checks off: I11 256 * 256 = 65536 wraps to 0 in the i16 Rep,
-     passes the range check and is returned without a panic;
-   - debug-assertions off, overflow-checks on: I11 1023 * 1023 panics instead of wrapping. *)
-Theorem c15_mixed_profile_silent_wrap_refuted :
-  exists r a b, In r types_table /\ in_range r a /\ in_range r b /\ ~ in_range r (a * b) /\
-                arith (mkCfg true false) r OMul a b = Ok 0.
-Proof. exact tbl_mixed_profile_silent_wrap_refuted. Qed.
-Print Assumptions c15_mixed_profile_silent_wrap_refuted.
-
-Theorem c15_mixed_profile_release_panic_refuted :
-  exists r a b, In r types_table /\ in_range r a /\ in_range r b /\
-                arith (mkCfg false true) r OMul a b = Panic POverflow.
-Proof. exact tbl_mixed_profile_release_panic_refuted. Qed.
-Print Assumptions c15_mixed_profile_release_panic_refuted.
